@@ -86,7 +86,7 @@ where
         loop {
             match self.records.next() {
                 Some(r) => {
-                    if intersects(&r, self.interval) {
+                    if intersects(&r, self.reference_sequence_id, self.interval) {
                         *record = r;
                         return Ok(1);
                     }
@@ -150,9 +150,18 @@ where
             Err(e) => return Some(Err(e)),
         };
 
+        // An index record describes a single slice. Only that slice is read; otherwise, a
+        // container with more than one index record, e.g., one with multiple slices or a
+        // multi-reference slice, would return its records more than once.
+        let landmarks = container.header().landmarks();
+
         let records = container
             .slices()
-            .map(|result| {
+            .zip(landmarks)
+            .filter(|(_, landmark)| {
+                u64::try_from(**landmark).is_ok_and(|n| n == index_record.landmark())
+            })
+            .map(|(result, _)| {
                 let slice = result?;
 
                 let (core_data_src, external_data_srcs) = slice.decode_blocks()?;
@@ -194,9 +203,17 @@ where
     }
 }
 
-fn intersects(record: &sam::alignment::RecordBuf, region_interval: Interval) -> bool {
-    match (record.alignment_start(), record.alignment_end()) {
-        (Some(start), Some(end)) => {
+fn intersects(
+    record: &sam::alignment::RecordBuf,
+    reference_sequence_id: usize,
+    region_interval: Interval,
+) -> bool {
+    match (
+        record.reference_sequence_id(),
+        record.alignment_start(),
+        record.alignment_end(),
+    ) {
+        (Some(id), Some(start), Some(end)) if id == reference_sequence_id => {
             let alignment_interval = (start..=end).into();
             region_interval.intersects(alignment_interval)
         }
